@@ -225,6 +225,37 @@ func hostScanTable(ctx *Ctx, r *Result) {
 	}
 	x := p.NewExec(nil)
 	paths := x.Summarize(fn)
+	// the scan may live in a helper the function hands its argument to and whose
+	// results it returns as they are (a dispatcher over bracketed / other hosts)
+	if len(x.Problems) == 0 && len(loopHeaders(fn)) == 0 {
+		var delegate *ssa.Function
+		for _, pa := range paths {
+			if len(pa.Rets) != 3 || pa.Rets[0].Op != "ext" || pa.Rets[0].Args[0].Op != "call" {
+				continue
+			}
+			c := pa.Rets[0].Args[0]
+			same := len(c.Args) == 1 && c.Args[0].Key() == "param:"+fn.Params[0].Name()
+			for i, rt := range pa.Rets {
+				if rt.Op != "ext" || rt.Idx != i || rt.Args[0].Key() != c.Key() {
+					same = false
+				}
+			}
+			if !same {
+				continue
+			}
+			for _, g := range p.Funcs {
+				if funcName(g) == c.Name && len(g.Params) == 1 && len(loopHeaders(g)) == 1 {
+					delegate = g
+				}
+			}
+		}
+		if delegate != nil {
+			fn = delegate
+			x = p.NewExec(nil)
+			paths = x.Summarize(fn)
+			r.fn(funcName(fn))
+		}
+	}
 	r.Paths += len(paths)
 	if len(x.Problems) > 0 || len(loopHeaders(fn)) != 1 {
 		r.undecided("R13.7", "fastParseHost", "not a single-loop function: "+strings.Join(x.Problems, ";"))
@@ -280,6 +311,15 @@ func hostScanTable(ctx *Ctx, r *Result) {
 		}
 		return "?"
 	}
+	// the label-start flag may be kept as "previous byte was `.`" (initially
+	// false, with an explicit i == 0 test for the first byte) or as "at the
+	// start of a label" (initially true)
+	prevStartsTrue := true
+	for _, pa := range paths {
+		if pa.Start == "entry" && pa.End == hdr && nextOf(pa, prevPhi) != "true" {
+			prevStartsTrue = false
+		}
+	}
 	n := 0
 	for _, pa := range paths {
 		if pa.Start != hdr {
@@ -329,7 +369,7 @@ func hostScanTable(ctx *Ctx, r *Result) {
 			}
 		case s == -1 && d == 1:
 			atStart := pv == 1 || z == 1
-			inside := pv == -1 && z == -1
+			inside := pv == -1 && (z == -1 || prevStartsTrue)
 			switch {
 			case nP != "false":
 				fail("after a digit the label-start flag is " + nP)
@@ -361,8 +401,8 @@ func hostScanTable(ctx *Ctx, r *Result) {
 		if pa.Start != "entry" || pa.End != hdr {
 			continue
 		}
-		good := nextOf(pa, iPhi) == "0" && nextOf(pa, prevPhi) == "false" && nextOf(pa, assumePhi) == "false"
-		r.check(good, "R13.7", "fastParseHost: initial state {"+shortAtoms(pa)+"}", "", fmt.Sprintf("the scan starts with position %s, label-start flag %s, IPv4 guess %s (expected 0, false, false)", nextOf(pa, iPhi), nextOf(pa, prevPhi), nextOf(pa, assumePhi)), 1)
+		good := nextOf(pa, iPhi) == "0" && (nextOf(pa, prevPhi) == "false" || (prevStartsTrue && nextOf(pa, prevPhi) == "true")) && nextOf(pa, assumePhi) == "false"
+		r.check(good, "R13.7", "fastParseHost: initial state {"+shortAtoms(pa)+"}", "", fmt.Sprintf("the scan starts with position %s, label-start flag %s, IPv4 guess %s (expected 0, false — or true when the flag means \"at a label start\" —, false)", nextOf(pa, iPhi), nextOf(pa, prevPhi), nextOf(pa, assumePhi)), 1)
 	}
 	if n < 8 {
 		r.undecided("R13.7", "fastParseHost", fmt.Sprintf("only %d loop segments", n))
